@@ -37,7 +37,7 @@ fn payload(vcell: &VCell) -> usize {
             .saturating_add(lambda.args.len())
             .saturating_add(lambda.envmap.get_map().len())
             // the formals once more, as the datum a procedure is described with
-            .saturating_add(Cell::weight(lambda.desc_args.iter())),
+            .saturating_add(Cell::weight(lambda.desc_args.as_deref())),
         VCell::LexicalEnv(env) => env.slot_len(),
         // the name, and the copy of it that is the key of the symbol table
         VCell::Symbol(name) => (name.len() / std::mem::size_of::<VCell>()).saturating_mul(2),
